@@ -382,6 +382,13 @@ ListingLine(c, tagHex) == ListingLineV(c, tagHex, TRUE)
 ListingHeader == <<"int#a8509bda ? = Int", "long#22076cba ? = Long", "float#824dab22 ? = Float",
                    "double#2210c154 ? = Double", "string#b5286e24 ? = String">>
 ListingSkips == {"int", "long", "float", "double", "string"}      \* combinators with these names are not listed again
+(* a listing line ends with a comment naming the source file; the whole listing: the fixed header, then one line *)
+(* per combinator in source order                                                                              *)
+ListingFileLine(c, tagHex, file) == ListingLine(c, tagHex) \o " //  " \o file
+Listed(c) == QName(c.ns, c.nm) \notin ListingSkips
+(* what a listing line denotes when it is terminated and parsed again: the same combinator with its effective *)
+(* tag written explicitly and its modifiers in listing order                                                  *)
+ListingDenotes(c, tagHex) == [c EXCEPT !.tag = tagHex, !.mods = SortMods(c.mods, Len(c.mods))]
 
 ---------------------------------------------------------------------------
 (* 5. THE PRINTER (TL.String): one combinator per line, sections inserted   *)
